@@ -238,19 +238,34 @@ Proof. cbn. repeat constructor; cbn; intuition discriminate. Qed.
 Example ex_safe : methods_only ex_calls = true /\ safe ex_calls = true.
 Proof. split; vm_compute; reflexivity. Qed.
 
-Example ex_run_fifo :
-  let '(tr, s) := auto_run 1000 (init ex_calls) [] in
-  reach ex_calls tr s /\ all_done_b s = true /\ length tr = 57 /\
-  inline_log ex_calls (log s) = sequential_order ex_calls /\ replies_ok ex_calls (log s) = true.
-Proof. vm_compute. repeat split; reflexivity. Qed.
+(* a schedule is checked by running it: the statement is a boolean, so the proof term stays small *)
+Definition ex_check (calls : list call) (r : list label * sys) : bool :=
+  match runs (fst r) (init calls) with
+  | Some s => all_done_b s && evl_eqb (inline_log calls (log s)) (sequential_order calls) && replies_ok calls (log s)
+  | None => false
+  end.
 
-Example ex_run_lifo :
-  let '(tr, s) := auto_run_rev 1000 (init ex_calls) [] in
-  reach ex_calls tr s /\ all_done_b s = true /\
-  inline_log ex_calls (log s) = sequential_order ex_calls /\ replies_ok ex_calls (log s) = true.
-Proof. vm_compute. repeat split; reflexivity. Qed.
+Lemma ex_check_sound calls r : ex_check calls r = true ->
+  exists tr s, reach calls tr s /\ all_done s /\ inline_log calls (log s) = sequential_order calls /\
+               replies_ok calls (log s) = true.
+Proof.
+  unfold ex_check. destruct (runs (fst r) (init calls)) as [s|] eqn:Hr; [|discriminate]. intros H.
+  apply andb_prop in H. destruct H as [H H3]. apply andb_prop in H. destruct H as [H1 H2].
+  exists (fst r), s. split; [exact Hr|]. split; [apply all_done_b_sound; [eapply wf_reach; exact Hr|assumption]|].
+  split; [now apply evl_eqb_eq|assumption].
+Qed.
+
+Example ex_run_fifo : ex_check ex_calls (auto_run 1000 (init ex_calls) []) = true.
+Proof. vm_compute. reflexivity. Qed.
+
+Example ex_run_lifo : ex_check ex_calls (auto_run_rev 1000 (init ex_calls) []) = true.
+Proof. vm_compute. reflexivity. Qed.
 
 (* the two schedules really differ: the spawned call 1 is interleaved differently with the inline ones *)
 Example ex_runs_differ :
-  log (snd (auto_run 1000 (init ex_calls) [])) <> log (snd (auto_run_rev 1000 (init ex_calls) [])).
-Proof. vm_compute. discriminate. Qed.
+  evl_eqb (log (snd (auto_run 1000 (init ex_calls) []))) (log (snd (auto_run_rev 1000 (init ex_calls) []))) = false.
+Proof. vm_compute. reflexivity. Qed.
+
+Example ex_complete_run : exists tr s, reach ex_calls tr s /\ all_done s /\
+  inline_log ex_calls (log s) = sequential_order ex_calls /\ replies_ok ex_calls (log s) = true.
+Proof. exact (ex_check_sound _ _ ex_run_fifo). Qed.
